@@ -11,7 +11,7 @@ import (
 func init() {
 	register(&Property{
 		ID: "C03", Level: "exploration", Builds: []string{"plain"},
-		Rule:        "cases = generated bitmaps (26 chunk archetypes incl. full / single-value / key 0xFFFF chunks, 11 storage forms, up to 40 keys) each probed with a boundary-biased argument battery (0, every interval end +-1, chunk edges +-1, gaps, 2^32-1, random present/absent) for Contains, Rank, Select (incl. card-1, card, card+1 and cumulative chunk boundaries), CardinalityInRange / IntersectsWithInterval over pairs of those arguments incl. end=2^32 and end>2^32, Minimum/Maximum, Equals across storage forms and one-element perturbations, ToArray/ToExistingArray, Checksum under Clone and a serialize/deserialize round trip; raw storage hashed before/after (queries must not modify). Plus ALL subsets of an 8-value boundary domain x all targets of the domain +-1. Non-trivial: non-empty bitmap; distinct = hash(set, form).",
+		Rule:        "cases = generated bitmaps (26 chunk archetypes incl. full / single-value / key 0xFFFF chunks, 11 storage forms, up to 40 keys) each probed with a boundary-biased argument battery (0, every interval end +-1, chunk edges +-1, gaps, 2^32-1, random present/absent) for Contains, Rank, Select (incl. card-1, card, card+1 and cumulative chunk boundaries), CardinalityInRange / IntersectsWithInterval over pairs of those arguments incl. end=2^32 and end>2^32, Minimum/Maximum, Equals across storage forms and one-element perturbations, ToArray/ToExistingArray, Checksum under Clone and a serialize/deserialize round trip; raw storage hashed before/after (queries must not modify). Plus ALL subsets of an 8-value boundary domain x all targets of the domain +-1. Non-trivial: non-empty bitmap; distinct = hash(set, form). Equals is also asked about different sets of EQUAL cardinality (gap shifted, value or chunk moved). Exhaustive sub-space: every chunk count (quick 0..4200 + edges up to 65536, thorough all 0..65536) through the query battery and the Checksum clauses. Universe-scale bitmaps (cardinality 2^32 and just below) run the same battery.",
 		Assumptions: []string{"interval-set model validated by selfcheck", "Minimum/Maximum on an empty bitmap are out of domain"},
 		Units: []Unit{
 			{Name: "queries", Quick: 24000, Thorough: 800000, Run: c03Queries},
